@@ -103,7 +103,7 @@ func (k Keeper) FeefromReporterStake(ctx context.Context, reporterAddr sdk.AccAd
 			stakeWithValidator := info.validator.TokensFromShares(info.shares)
 			// if selectors stake meets their share of the fee then unbond the amount and break
 			if stakeWithValidator.GTE(unbondAmt) {
-				sharesToUnbond, err := info.validator.SharesFromTokens(unbondAmt.TruncateInt())
+				sharesToUnbond, err := sharesForTokens(info.validator, info.shares, unbondAmt.TruncateInt())
 				if err != nil {
 					return err
 				}
@@ -116,7 +116,7 @@ func (k Keeper) FeefromReporterStake(ctx context.Context, reporterAddr sdk.AccAd
 				feeTracker = append(feeTracker, &types.TokenOriginInfo{
 					DelegatorAddress: selectors.delAddr.Bytes(),
 					ValidatorAddress: info.valAddr.Bytes(),
-					Amount:           unbondAmt.TruncateInt(),
+					Amount:           escrowedAmt,
 				})
 				totalTrackedAmount = totalTrackedAmount.Add(escrowedAmt)
 				break
@@ -325,13 +325,14 @@ func (k Keeper) deductFromdelegation(ctx context.Context, delAddr sdk.AccAddress
 	currentTokens := validator.TokensFromShares(del.Shares)
 	shares := del.Shares
 	if currentTokens.GTE(delTokens) {
-		shares, err = validator.SharesFromTokens(delTokens.RoundInt())
+		shares, err = sharesForTokens(validator, del.Shares, delTokens.RoundInt())
 		if err != nil {
 			return math.LegacyDec{}, err
 		}
 		delTokens = math.LegacyZeroDec()
 	} else {
-		delTokens = delTokens.Sub(currentTokens)
+		// all shares go: what the staking module hands out for them is their value cut to whole units
+		delTokens = delTokens.Sub(math.LegacyNewDecFromInt(currentTokens.TruncateInt()))
 	}
 
 	if !shares.IsZero() {
@@ -345,6 +346,20 @@ func (k Keeper) deductFromdelegation(ctx context.Context, delAddr sdk.AccAddress
 		}
 	}
 	return delTokens, nil
+}
+
+// sharesForTokens returns the shares to unbond so that the staking module hands out the whole amount: it cuts the
+// value of the shares to whole units, and with an exchange rate other than one the rounded share amount can be worth a
+// fraction less than the amount, which would leave one unit behind
+func sharesForTokens(validator stakingtypes.Validator, available math.LegacyDec, amount math.Int) (math.LegacyDec, error) {
+	shares, err := validator.SharesFromTokens(amount)
+	if err != nil {
+		return math.LegacyDec{}, err
+	}
+	if validator.TokensFromShares(shares).TruncateInt().LT(amount) && shares.LT(available) {
+		shares = math.LegacyMinDec(shares.Add(math.LegacySmallestDec()), available)
+	}
+	return shares, nil
 }
 
 func (k Keeper) MoveTokensFromValidator(ctx context.Context, validator stakingtypes.Validator, amount math.Int) error {
